@@ -256,7 +256,9 @@ func (p *C16) Gen(seed uint64, i int, tier string) *scen.Scenario {
 			case 2:
 				ts.S, ts.Ns = 253402300799, 999999999 // the last instant of year 9999
 			}
-			if useHandler && r.Bool() {
+			if useHandler && r.Bool() && !(ts.S == -62135596800 && ts.Ns == 0) {
+				// (a log/slog record whose Time is the zero time has no time by log/slog's own contract: what the
+				// adapter prints for it is not decided by "the record's own instant"; WriteThru gets that instant)
 				// an explicit slog.Record handed to Enabled+Handle (level Info..Error so that it is admitted)
 				sc.Setup = append(sc.Setup, scen.Op{Op: "handler_handle", L: 1, Lvl: scen.Pick(r, []int{0, 4, 8}), T: ts, Msg: "m" + t, Tok: t, Probe: true, Kind: "force"})
 				continue
@@ -534,6 +536,9 @@ func (p *C16) Check(sc *scen.Scenario, run *orch.Run, env *orch.Env) []orch.Viol
 						moreInst = append(moreInst, t)
 					}
 				}
+			}
+			if op.Op == "handler_handle" && op.T.S == -62135596800 && op.T.Ns == 0 {
+				continue // no time by log/slog's contract, see Gen
 			}
 			text, ok := timeText(o.Writes[0].P)
 			if !ok {
